@@ -18,7 +18,7 @@ import (
 // Desc describes one attempt: the constants TLC enumerates in Form.tla.
 type Desc struct {
 	Kind  string `json:"kind"`  // form renew refreshFull refreshPartial
-	PV    string `json:"pv"`    // ok allow0 coll price proof chal hfund rfund
+	PV    string `json:"pv"`    // ok allow0 coll price proof chal hfund rfund noelem
 	Basis string `json:"basis"` // same behind fork forkx
 	Inp   string `json:"inp"`   // conf unconf
 	Fault string `json:"fault"` // none dial cutB1..cutA4 m1basis m1value m2low m2id m3sig m3pol m3len m4empty m4sig m4txn bcast record
@@ -378,7 +378,7 @@ func (w *World) Attempt(d Desc) (*Obs, error) {
 	formProof := prices.TipHeight + 300
 	renewProof := existing.ProofHeight + 10
 	switch d.PV {
-	case "ok":
+	case "ok", "noelem": // (noelem is a state of the world, see World.Prepare)
 	case "allow0":
 		allowance = types.ZeroCurrency
 	case "coll":
